@@ -24,6 +24,14 @@ TEXT = {
         "note": TB + "Modelled rather than verified: reporter.go (hand model, byte-exact differential tie). Byte columns, not visual columns.",
         "technique": "Lean 4 proofs (index arithmetic over List UInt8, case split on the three truncation regimes) + byte-exact differential correspondence on a boundary grid",
     },
+    "C18": {
+        "level": "Theorems for every input string: resolve_precedence (per option: the flag if given, else the environment value if set - even empty - else the "
+                 "regenerated default), resting on parseList_join_idem (parse . join . parse = parse: the environment value survives its trip through the flag default), "
+                 "parseList_char (items = trimmed non-empty comma parts, upper-cased for checks), parseBool_iff, items_wellformed. Tied in-process over the full "
+                 "3x3 grid per option, all boolean spellings, list shapes and fuzzed byte strings, and through the real binary on a probe module.",
+        "note": TB + "Modelled rather than verified: config.go. unicode.ToUpper enters as a parameter with three stated facts, checked exhaustively against Go's tables each run.",
+        "technique": "Lean 4 proofs (list algebra: split/join/trim, idempotence) + grid/fuzz differential correspondence in-process and via the real binary",
+    },
 }
 
 # properties not (yet) claimed, with the reason; anything claimed in registry.PROPS is dropped from this list automatically
